@@ -636,6 +636,7 @@ fn left_recursion<'a, 'i: 'a>(rules: HashMap<String, &'a ParserNode<'i>>) -> Vec
         node: &'a ParserNode<'i>,
         rules: &'a HashMap<String, &ParserNode<'i>>,
         trace: &mut Vec<String>,
+        done: &mut HashSet<String>,
     ) -> Option<Error<Rule>> {
         match node.expr.clone() {
             ParserExpr::Ident(other) => {
@@ -660,11 +661,16 @@ fn left_recursion<'a, 'i: 'a>(rules: HashMap<String, &'a ParserNode<'i>>) -> Vec
                     ));
                 }
 
-                if !trace.contains(&other) {
+                // a rule that was searched completely without reaching `trace[0]` need not be
+                // searched again from another position (each rule is entered once per start rule)
+                if !trace.contains(&other) && !done.contains(&other) {
                     if let Some(node) = rules.get(&other) {
-                        trace.push(other);
-                        let result = check_expr(node, rules, trace);
+                        trace.push(other.clone());
+                        let result = check_expr(node, rules, trace, done);
                         trace.pop().unwrap();
+                        if result.is_none() {
+                            done.insert(other);
+                        }
 
                         return result;
                     }
@@ -682,26 +688,26 @@ fn left_recursion<'a, 'i: 'a>(rules: HashMap<String, &'a ParserNode<'i>>) -> Vec
                 {
                     // `lhs` may match without consuming input: both what it calls first
                     // and what `rhs` calls first are reached at the same position.
-                    check_expr(lhs, rules, trace).or_else(|| check_expr(rhs, rules, trace))
+                    check_expr(lhs, rules, trace, done).or_else(|| check_expr(rhs, rules, trace, done))
                 } else {
-                    check_expr(lhs, rules, trace)
+                    check_expr(lhs, rules, trace, done)
                 }
             }
             ParserExpr::Choice(ref lhs, ref rhs) => {
-                check_expr(lhs, rules, trace).or_else(|| check_expr(rhs, rules, trace))
+                check_expr(lhs, rules, trace, done).or_else(|| check_expr(rhs, rules, trace, done))
             }
-            ParserExpr::Rep(ref node) => check_expr(node, rules, trace),
-            ParserExpr::RepOnce(ref node) => check_expr(node, rules, trace),
-            ParserExpr::Opt(ref node) => check_expr(node, rules, trace),
-            ParserExpr::PosPred(ref node) => check_expr(node, rules, trace),
-            ParserExpr::NegPred(ref node) => check_expr(node, rules, trace),
-            ParserExpr::Push(ref node) => check_expr(node, rules, trace),
+            ParserExpr::Rep(ref node) => check_expr(node, rules, trace, done),
+            ParserExpr::RepOnce(ref node) => check_expr(node, rules, trace, done),
+            ParserExpr::Opt(ref node) => check_expr(node, rules, trace, done),
+            ParserExpr::PosPred(ref node) => check_expr(node, rules, trace, done),
+            ParserExpr::NegPred(ref node) => check_expr(node, rules, trace, done),
+            ParserExpr::Push(ref node) => check_expr(node, rules, trace, done),
             ParserExpr::RepExact(ref node, _)
             | ParserExpr::RepMin(ref node, _)
             | ParserExpr::RepMax(ref node, _)
-            | ParserExpr::RepMinMax(ref node, _, _) => check_expr(node, rules, trace),
+            | ParserExpr::RepMinMax(ref node, _, _) => check_expr(node, rules, trace, done),
             #[cfg(feature = "grammar-extras")]
-            ParserExpr::NodeTag(ref node, _) => check_expr(node, rules, trace),
+            ParserExpr::NodeTag(ref node, _) => check_expr(node, rules, trace, done),
             _ => None,
         }
     }
@@ -711,7 +717,7 @@ fn left_recursion<'a, 'i: 'a>(rules: HashMap<String, &'a ParserNode<'i>>) -> Vec
     for (name, node) in &rules {
         let name = name.clone();
 
-        if let Some(error) = check_expr(node, &rules, &mut vec![name]) {
+        if let Some(error) = check_expr(node, &rules, &mut vec![name], &mut HashSet::new()) {
             errors.push(error);
         }
     }
